@@ -9,6 +9,11 @@ Static clauses decided (necessary conditions of C05):
          cached_): when a function looks a value up under key K and later stores the computed value, the store uses the
          same key expression and no variable occurring in K is reassigned on a path between the lookup and the store
          (otherwise the entry is filed under a different key than it is asked for, and another input is served it).
+ PROJ    a cache key keeps what the cached value depends on: when a function computes the cached value from the *values* of a
+         mapping parameter (it reads p.items() / p[k] / p.values() on the miss path), the key must contain those values too --
+         the parameter may enter the key whole or as p.items(), but not only under a projection that keeps its keys alone
+         (frozenset(p), tuple(p), sorted(p), set(p), list(p), p.keys()).  Two inputs with the same keys and different values
+         (attr -> `is None`) would otherwise share one entry.
  SHAPE   one key, one tree: the code key handed to Query(...) / create_extractors(...) identifies the syntax tree that the
          extractor and translator caches store under it.  A call site that passes a tree it *constructed itself* around the
          decompiled one (EntityMeta._query_from_args_ wraps a lambda body into a generator expression) must not pass the bare key
@@ -70,6 +75,7 @@ def run(ctx):
     fixed_rule(ctx)
     embedded_rule(ctx)
     shape_rule(ctx)
+    proj_rule(ctx)
     alias_rule(ctx)
     from . import C10
     C10.run(ctx, P='C05-FRESH', cache_only=True)
@@ -324,6 +330,49 @@ def fixed_rule(ctx, prefix='C05-FIXED'):
                '' if ok else 'construct_sql_ast(... %s ...) shapes the SQL but %s is not part of sql_key' % (norm(a), norm(a)), node=a)
 
 
+def proj_rule(ctx):
+    repo = ctx.repo
+    KEYONLY = ('frozenset', 'tuple', 'sorted', 'set', 'list')
+    n = 0
+    for fn in repo.rule_funcs():
+        looks, stores = cache_accesses(fn)
+        if not looks or not stores: continue
+        stmts = list(walk_no_nested(fn.node))
+        for p_ in fn.params:
+            valued = [a for a in stmts if (isinstance(a, ast.Call) and isinstance(a.func, ast.Attribute) and a.func.attr in ('items', 'values', 'get') and dotted(a.func.value) == p_)
+                      or (isinstance(a, ast.Subscript) and dotted(a.value) == p_ and isinstance(a.ctx, ast.Load))]
+            if not valued: continue
+            for d, k2, snode in stores:
+                # expressions the key is made of (follow local names two levels)
+                exprs = [k2]; seen = set()
+                for _ in range(3):
+                    for e in list(exprs):
+                        for nm in [x.id for x in ast.walk(e) if isinstance(x, ast.Name)]:
+                            if nm in seen or nm == p_: continue
+                            seen.add(nm)
+                            exprs += [st.value for st in stmts if isinstance(st, ast.Assign) and any(dotted(t) == nm for t in st.targets)]
+                par = {}
+                for e in exprs:
+                    for x in ast.walk(e):
+                        for ch in ast.iter_child_nodes(x): par[id(ch)] = x
+                uses = [x for e in exprs for x in ast.walk(e) if isinstance(x, ast.Name) and x.id == p_]
+                if not uses: continue
+                n += 1
+                def keeps_values(u):
+                    q = par.get(id(u))
+                    if isinstance(q, ast.Attribute) and q.attr == 'items': return True
+                    if isinstance(q, ast.Attribute) and q.attr in ('keys',): return False
+                    if isinstance(q, ast.Call) and dotted(q.func) in KEYONLY and u in q.args: return False
+                    if isinstance(q, (ast.comprehension,)) and q.iter is u: return False
+                    return True
+                ok = any(keeps_values(u) for u in uses)
+                ctx.ob('C05-PROJ.key-keeps-the-values-the-result-depends-on', fn, snode, ok,
+                       '' if ok else '%s computes the cached value from the values of `%s` (%s) but the key of %s contains `%s` only through a projection that keeps '
+                       'its keys: two calls whose `%s` have the same keys and different values share one cache entry, the second is served the first one\'s '
+                       'result' % (fn.qual, p_, norm(valued[0]), d, p_, p_), node=snode, expected='tuple(sorted(%s.items())) or the mapping itself in the key' % p_)
+    ctx.floor('C05-PROJ', n, 1, 'caches keyed by a mapping parameter whose values shape the result')
+
+
 def shape_rule(ctx):
     repo = ctx.repo
     n = 0
@@ -440,6 +489,7 @@ def alias_rule(ctx):
 
 
 MUTANTS = [
+    dict(id='C05-p1', file='pony/orm/core.py', fn='EntityMeta._construct_sql_', old="        sorted_query_attrs = tuple(sorted(query_attrs.items()))\n        query_key = sorted_query_attrs, order_by_pk", new="        sorted_query_attrs = tuple(sorted(query_attrs.items()))\n        query_key = frozenset(query_attrs), order_by_pk", expect='C05-PROJ'),
     dict(id='C05-sh1', file='pony/orm/core.py', fn='EntityMeta._query_from_args_', old="        code_key = code_key, 'query_from_lambda'\n", new="", expect='C05-SHAPE'),
     dict(id='C05-e1', file='pony/orm/sqltranslation.py', fn='SQLTranslator.dispatch_external', old="            translator.root_translator.fixed_param_values.update(prev_translator.fixed_param_values)\n", new="", expect='C05-FIXED.embedded'),
     dict(id='C05-e2', file='pony/orm/core.py', fn='Query.delete', old="        sql_key = HashableDict(query._key, vartypes=HashableDict(translator.vartypes),\n                               fixed_param_values=HashableDict(translator.fixed_param_values), sql_command='DELETE')", new="        sql_key = HashableDict(query._key, sql_command='DELETE')", expect='C05-FIXED.staleness'),
